@@ -152,10 +152,8 @@ fn compute_block_facts<'ast, 'arena>(
             for &local in &op.reads {
                 note_use(&mut uses, &defs, local, local_start);
             }
-            for &local in &op.writes {
-                note_def(&mut defs, local, local_start);
-            }
-
+            // A statement's calls run while its right-hand side is evaluated, i.e. before
+            // the statement's own write: `x get f()` with `f` reading `x` uses the old `x`.
             for &callee in &op.direct_callees {
                 let summary = &summaries[callee.0 as usize];
                 if !summary.available {
@@ -167,6 +165,9 @@ fn compute_block_facts<'ast, 'arena>(
                         note_use(&mut uses, &defs, local, local_start);
                     }
                 }
+            }
+            for &local in &op.writes {
+                note_def(&mut defs, local, local_start);
             }
         }
 
